@@ -29,12 +29,16 @@ EXPECT = os.path.join(V, "seeded", "EXPECT.json")
 
 
 def overlay_of(patch, root=REPO_ROOT):
-    """Applies the diff to scratch copies of the touched files; {rel: text}
-    or None when it does not apply."""
+    """Applies the diff to scratch copies of the touched files; {rel: text},
+    with ``None`` for a file the patch deletes or moves away, or None when the
+    patch does not apply."""
     files = []
     for ln in open(patch, encoding="utf-8"):
-        if ln.startswith("+++ b/"):
-            files.append(ln[6:].strip())
+        for pre in ("+++ b/", "--- a/", "rename from ", "rename to ", "copy from ", "copy to "):
+            if ln.startswith(pre):
+                f = ln[len(pre):].strip()
+                if f and f != "/dev/null" and f not in files:
+                    files.append(f)
     tmp = tempfile.mkdtemp(prefix="jslpc-")
     try:
         for rel in files:
@@ -43,13 +47,34 @@ def overlay_of(patch, root=REPO_ROOT):
             src = os.path.join(root, rel)
             if os.path.exists(src):
                 shutil.copy(src, dst)
-        r = subprocess.run(
-            ["patch", "-p1", "-s", "-f", "-F0", "--no-backup-if-mismatch", "-i", patch],
-            cwd=tmp, capture_output=True, text=True,
-        )
+        # git apply understands renames, new and deleted files; it is strict
+        # (no fuzz).  `patch` is the fallback for diffs git refuses.
+        r = subprocess.run(["git", "apply", "-p1", "--whitespace=nowarn", os.path.abspath(patch)], cwd=tmp, capture_output=True, text=True,
+                           env={**os.environ, "GIT_DIR": os.path.join(tmp, ".nogit"), "GIT_CEILING_DIRECTORIES": tmp})
         if r.returncode != 0:
-            return None
-        return {rel: open(os.path.join(tmp, rel), encoding="utf-8").read() for rel in files if rel.endswith(".py")}
+            for rel in files:  # restore pristine copies before the fallback
+                dst = os.path.join(tmp, rel)
+                src = os.path.join(root, rel)
+                if os.path.exists(src):
+                    shutil.copy(src, dst)
+                elif os.path.exists(dst):
+                    os.remove(dst)
+            r = subprocess.run(
+                ["patch", "-p1", "-s", "-f", "-F0", "--no-backup-if-mismatch", "-i", os.path.abspath(patch)],
+                cwd=tmp, capture_output=True, text=True,
+            )
+            if r.returncode != 0:
+                return None
+        out = {}
+        for rel in files:
+            if not rel.endswith(".py"):
+                continue
+            f = os.path.join(tmp, rel)
+            if os.path.exists(f):
+                out[rel] = open(f, encoding="utf-8").read()
+            elif os.path.exists(os.path.join(root, rel)):
+                out[rel] = None  # deleted / moved away
+        return out
     finally:
         shutil.rmtree(tmp, ignore_errors=True)
 
